@@ -382,6 +382,37 @@ static void entry_reset(Obj *o, int k, vf_rng *r, std::string &desc)
 	vf_count("monitor:entry-resets-compared", 1);
 	desc += std::string(" reset-entry:") + pn.set;
 }
+
+/* "set A; set B" equals "set B" on a twin that did not get A */
+static void set_twice(Obj *o, int k, vf_rng *r, std::string &desc)
+{
+	static const char *cliptexts[] = { "x", "y", "z", "xy", "xz", "yz", "xyz", "" };
+	const PN &pn = names[k].n[vf_below(r, names[k].cnt)];
+	Snap before = snap(o->obj(), o->kind);
+	int t = find(before, pn.get);
+	VF_CHECK(t >= 0, "cxx:get:name-missing", "%s: property '%s' is not listed", o->kind, pn.get);
+	const char *v[2];
+	for (int i = 0; i < 2; i++) {
+		if (!strcmp(pn.get, "clip")) v[i] = cliptexts[vf_below(r, 8)];
+		else if (!strcmp(pn.get, "intervals")) v[i] = vf_chance(r, 1, 3) ? "log" : numtexts[1 + vf_below(r, 5)];
+		else if (before[t].isstr) v[i] = strtexts[vf_below(r, 6)];
+		else if (before[t].type == mpt_color_typeid()) v[i] = coltexts[vf_below(r, 14)];
+		else v[i] = numtexts[vf_below(r, sizeof(numtexts) / sizeof(*numtexts))];
+	}
+	std::string ctx = std::string(o->kind) + " \"" + pn.set + "\": \"" + std::string(v[0]).substr(0, 30) + "\" then \"" + std::string(v[1]).substr(0, 30) + "\"";
+	vf_log("%s", ctx.c_str());
+	vf_fp(pn.set, strlen(pn.set)); vf_fp(v[0], strlen(v[0])); vf_fp(v[1], strlen(v[1]));
+	Obj *tw = o->cloned();
+	vf_at("object::set");
+	o->obj().set(pn.set, v[0], 0);
+	bool rb = o->obj().set(pn.set, v[1], 0), rt = tw->obj().set(pn.set, v[1], 0);
+	vf_count("object::set", 3);
+	VF_CHECK(rb == rt, "cxx:set:depends-on-previous-value", "%s: second set %s, the same set on the twin %s", ctx.c_str(), rb ? "accepted" : "refused", rt ? "accepted" : "refused");
+	if (rb) same(snap(tw->obj(), tw->kind), snap(o->obj(), o->kind), -1, "cxx:set:depends-on-previous-value", ctx);
+	tw->release();
+	vf_count("monitor:set-twice", 1);
+	desc += std::string(" twice:") + pn.set;
+}
 static void case_objects(vf_rng *r)
 {
 	int k = (int) vf_below(r, NKinds), steps = vf_range(r, 4, 20);
@@ -391,6 +422,7 @@ static void case_objects(vf_rng *r)
 	for (int s = 0; s < steps; s++) {
 		if (vf_chance(r, 1, 8)) foreign_check(o, k, r, desc);
 		else if (vf_chance(r, 1, 6)) entry_reset(o, k, r, desc);
+		else if (vf_chance(r, 1, 5)) set_twice(o, k, r, desc);
 		else if (vf_chance(r, 1, 4)) copy_check(o, k, r, desc);
 		else set_text(o, k, r, desc);
 	}
